@@ -21,6 +21,7 @@ type Ev struct {
 	Ret    int64
 	Thread int    // -1 = sequential prefix/suffix
 	Parent string // for pseudo-ops: the call they were decomposed from
+	DefCands []int64 // default expirations set by SetDefaultExpiration calls overlapping this call (it may have read any of them)
 	Nows   []int64 // ticking-clock mode: the instants the call read (liveness by the first, stamping by the last)
 }
 
@@ -143,9 +144,24 @@ func (s *searcher) dfs(st *model.M, mask uint64, depth int) bool {
 			gone.Ents[k] = model.Ent{}
 			variants = append(variants, gone)
 		}
+		if len(e.DefCands) > 0 {
+			// the call samples the default expiration at some moment of its own, not necessarily
+			// at its linearisation point: any default in force during the call is acceptable
+			base := variants
+			for _, dc := range e.DefCands {
+				for _, b := range base {
+					c := b.Clone()
+					d := dc
+					c.DOvr = &d
+					variants = append(variants, c)
+				}
+			}
+		}
 		for _, c := range variants {
 			c.At(e.Nows)
-			if err := c.Step(&e.Op, e.Res); err != nil {
+			err := c.Step(&e.Op, e.Res)
+			c.DOvr = nil
+			if err != nil {
 				if depth >= s.best {
 					errs = append(errs, fmt.Sprintf("#%d %s: %v", i, e.Op.String(), err))
 				}
